@@ -117,7 +117,7 @@ def gen_ops(ctx):
                 ops.append("bit %d %d %d" % (b, off, n))
             for k in [0, 1, -1, 5, -5, 1000, -1000, (I31 - 8) // b, -((I31 - 8) // b)] + [r.range(-(I31 - 8) // b, (I31 - 8) // b) for _ in range(10 if th else 3)]:
                 ops.append("bitit %d %d %d" % (b, off, k))
-    # beyond the guard (see C03_bit_advance_narrowing_witness): first violating point and a few more
+    # beyond 2^31 bits (where the pre-30b4cc6 tree narrowed to int): the first formerly violating point and a few more
     for b in BITS.values():
         for off, n in ((7, I31 - 7), (0, I31), (3, -I31 - 4), (7, 2 * I31 - 100)):
             ops.append("bit %d %d %d" % (b, off, n))
@@ -138,8 +138,6 @@ def nontrivial(op):
 
 ASSUME = [
     "ptrdiff_t arithmetic does not overflow (coordinates, steps and offsets are unbounded Int in the model)",
-    "bit-aligned views: laws hold under the guard |bit_offset + n| < 2^31 imposed by `int(_bit_offset+num_bits)` in bit_range::bit_advance "
-    "(C03_bit_advance_spec); beyond it the law fails on the real code as well (C03_bit_advance_narrowing_witness, known finding)",
     "comparison operators of non-step x-iterators (pointers, planar, bit iterators) are observed to agree with the sign-keyed step_iterator operators on valid ranges (not proven: C++ overload selection)",
     "iterator positions outside [begin, end] are outside the iterators' contract: compared model vs implementation but not judged",
 ]
@@ -172,7 +170,7 @@ def run(ctx, ops=None):
         rule="op lines over 15 view kinds (interleaved 1/3/4/6/12-byte pixels, packed 565, planar 8/16, virtual, bit-aligned 1/2/3/4/6/12 bits) x every shape "
              "w,h in 0..N x row padding x random compositions of flip/rotate/transpose/subimage/subsample: nav = 10 navigation paths for every pixel, "
              "ra = 1-D iterator laws for every start and every in-range offset (+1 outside on each side), st = x/y iterator laws, mv = locator move programs, "
-             "bit/bitit = bit iterator carry at every bit offset up to the int-narrowing guard; non-trivial = non-empty source (nav: more than one pixel; bit: n != 0)",
+             "bit/bitit = bit iterator carry at every bit offset, up to and beyond +-2^31 bits; non-trivial = non-empty source (nav: more than one pixel; bit: n != 0)",
         samples=samples, distinct_nontrivial=distinct, assumptions=ASSUME, trusted_base=vlib.TRUSTED_BASE,
         extra={"input_distribution": ctx.cov.get("input_distribution", {}), "view_kinds": sorted(KINDS)})
 
